@@ -252,6 +252,11 @@ def main():
     except subprocess.TimeoutExpired:
         log('timeout')
         return 2
+    except common.ImplFailure as e:
+        v = dict(e.violation)
+        v['property'] = args.pid
+        result = {'evaluations': 1, 'distinct_nontrivial': 0, 'rule': 'stopped at the first unusable state produced by the implementation',
+                  'samples': [], 'disagreements': [], 'violations': [v]}
     except Exception:
         traceback.print_exc()
         result = {'evaluations': 0, 'distinct_nontrivial': 0, 'rule': 'crashed', 'samples': [],
